@@ -52,7 +52,7 @@ def e2eEngine : Engine := fun inp obs =>
           .bad s!"the whole-scan theorem's closed form and the judge's census disagree: model {modelNums}, census {spec}" else
         let bad := (List.range spec.length).filter fun i => nums.getD i 0 != spec.getD i 0
         if let some i := bad.head? then
-          .viol (unionProps (bad.map fieldProp)) (", ".intercalate (bad.map fun i => s!"{fieldNames.getD i "?"} = {nums.getD i 0}, specification over the reachable set = {spec.getD i 0}"))
+          .viol (unionProps (bad.map (fieldPropW (style != "none")))) (", ".intercalate (bad.map fun i => s!"{fieldNames.getD i "?"} = {nums.getD i 0}, specification over the reachable set = {spec.getD i 0}"))
         else
         let tn := expandTable (PN r) r.length
         let tt := tagDepthTable r
